@@ -235,7 +235,21 @@ func init() {
 	// acc.run <pred kind> <k> <ops>: ops [0 pkt] WritePacket, [1] Reset, [2] Bytes, [3] Packets
 	register("acc.run", func(a []Val) Val {
 		kind, k := a[0].Int(), a[1].Int()
+		var acc packet.Accumulator
 		pred := func(data []byte) (bool, error) {
+			// "always": a predicate that looks at the accumulator while it is being consulted sees the packet that is being
+			// written both in Bytes() and in Packets() (seeded C17-u2: the packet joined the list after the predicate call)
+			if acc != nil {
+				var cat []byte
+				for _, p := range acc.Packets() {
+					if pl, err := packet.Payload(p); err == nil {
+						cat = append(cat, pl...)
+					}
+				}
+				if b := acc.Bytes(); !bytes.Equal(b, data) || !bytes.Equal(cat, b) {
+					noteUnstable("inside the completion predicate the accumulator is inconsistent: predicate data %d bytes, Bytes() %d bytes, payloads of Packets() %d bytes", len(data), len(b), len(cat))
+				}
+			}
 			big := len(data) >= k
 			switch kind {
 			case 0:
@@ -265,7 +279,7 @@ func init() {
 			}
 			return sum%256 == want, nil
 		}
-		acc := packet.NewAccumulator(pred)
+		acc = packet.NewAccumulator(pred)
 		outs := []Val{}
 		for step, o := range a[2].L {
 			switch o.L[0].Int() {
